@@ -93,6 +93,7 @@ type Gen struct {
 	blockID   int
 	newNeeded map[string]int
 	methods   []*fnInfo
+	pmethods  []*fnInfo
 	// clause: the block being generated is directly a switch clause body
 	unkeyed      int
 	nextIsClause bool
